@@ -3,7 +3,7 @@
    The token half (every mapper call returns the token of its own page) is Props/C11 part 2,
    stated on the mapper model (the Paging directory). *)
 From X86 Require Import Base.Word Addr.Model Addr.Canon Addr.Align Addr.Arith Addr.Step Paging.Entry
-  Machine.Wrappers Machine.Proofs Machine.TlbProofs Machine.AsmPins.
+  Machine.Wrappers Machine.Proofs Machine.TlbProofs Machine.AsmPins Machine.AsmPinsC11.
 Open Scope Z_scope.
 
 Theorem C11_flush_is_one_invlpg : forall a s, tlb_flush a s = Ok (tt, ev [E_INVLPG; a; 0; 0] s).
@@ -70,3 +70,10 @@ Print Assumptions C11_asid_and_nested_guards.
 Theorem C11_asm_blocks_as_modelled : pins_C11 = true.
 Proof. exact pins_C11_ok. Qed.
 Print Assumptions C11_asm_blocks_as_modelled.
+
+(* every asm! block in this property's domain is, in the current source, exactly the block the
+   model was written against: template, operand bindings and the complete option list; and no
+   block of the crate is `pure`, `nostack` around a push/pop, or `nomem` with a memory operand *)
+Theorem C11_asm_blocks_exact : pins_C11_exact = true.
+Proof. exact pins_C11_exact_ok. Qed.
+Print Assumptions C11_asm_blocks_exact.
